@@ -15,7 +15,12 @@ CORR = {"title": "C", "id": "0e95725d-7320-415d-80f7-004da920fc11", "name": "cn"
 CORR2 = {"title": "C2", "correlation": {"type": "value_count", "rules": ["n", "m"], "timespan": "1h", "condition": {"lt": 3, "field": "x"}}}
 CORR3 = {"title": "C3", "correlation": {"type": "temporal", "rules": ["n", "m"], "timespan": "1d", "condition": "n and not m"}}
 FILT = {"title": "F", "id": "0e95725d-7320-415d-80f7-004da920fc12", "logsource": {"category": "c"}, "filter": {"rules": ["n"], "sel": {"u|startswith": "adm"}, "condition": "not sel"}}
-WRONG = [None, True, 0, -1, 1.5, "", "x", "2024-13-45", "not-a-uuid", [], ["x"], [1], [None], [[]], {}, {"a": "b"}, {1: 2}, datetime.date(2024, 1, 2), "5x", "10", "m", "and", "1 of", "a|b", "f|nope", "2023-02-30", "2021/6/31"]
+def lab(w):
+    r = repr(w)
+    return r if len(r) <= 40 else f"<{type(w).__name__} of {len(r)} digits>"
+
+
+WRONG = [None, True, 0, -1, 1.5, "", "x", "2024-13-45", "not-a-uuid", [], ["x"], [1], [None], [[]], {}, {"a": "b"}, {1: 2}, datetime.date(2024, 1, 2), "5x", "10", "m", "and", "1 of", "a|b", "f|nope", "2023-02-30", "2021/6/31", 10 ** 400, float("inf"), float("nan")]
 
 
 def _norm(s):
@@ -96,8 +101,8 @@ class C07Bounded(Bounded):
             check(kind, base, fn, "unchanged document")
             for p in paths(base):
                 check(kind, setp(base, p, None, delete=True), fn, f"key {'/'.join(map(str, p))} deleted")
-                for w in (WRONG if tier != "quick" else WRONG[:-2:2] + ["not-a-uuid", "5x", "2023-02-30", "2021/6/31"]):
-                    check(kind, setp(base, p, w), fn, f"{'/'.join(map(str, p))} = {w!r}")
+                for w in (WRONG if tier != "quick" else WRONG[:-5:2] + ["not-a-uuid", "5x", "2023-02-30", "2021/6/31", 10 ** 400, float("inf"), float("nan")]):
+                    check(kind, setp(base, p, w), fn, f"{'/'.join(map(str, p))} = {lab(w)}")
         for w in WRONG:
             for kind, fn in (("rule", SigmaRule.from_dict), ("correlation", SigmaCorrelationRule.from_dict), ("filter", SigmaFilter.from_dict)):
                 if isinstance(w, dict):
